@@ -593,10 +593,12 @@ func (p *DevStatusAnsPayload) UnmarshalBinary(data []byte) error {
 		return errors.New("lorawan: 2 bytes of data are expected")
 	}
 	p.Battery = data[0]
-	if data[1] > 31 {
-		p.Margin = int8(data[1]) - 64
+	// bits 7:6 are RFU, the margin is a 6 bit signed integer
+	margin := data[1] & 0x3f
+	if margin > 31 {
+		p.Margin = int8(margin) - 64
 	} else {
-		p.Margin = int8(data[1])
+		p.Margin = int8(margin)
 	}
 	return nil
 }
